@@ -21,17 +21,3 @@ func (m *ModulePrison) VerifSetPeriods(product, name string, checkNs, stayNs int
 	}
 	return false
 }
-
-// VerifPeriods returns the converted periods of a loaded rule (nanoseconds).
-func (m *ModulePrison) VerifPeriods(product, name string) (int64, int64, bool) {
-	rules, ok := m.productTable.getRules(product)
-	if !ok {
-		return 0, 0, false
-	}
-	for i := range rules.ruleList {
-		if rules.ruleList[i].name == name {
-			return rules.ruleList[i].checkPeriodNs, rules.ruleList[i].stayPeriodNs, true
-		}
-	}
-	return 0, 0, false
-}
